@@ -265,6 +265,25 @@ def gen_C13(seed, tier):
     c.sup_eq(10, 11)
     c.sup_same_grid(10, 11)
     cases.append(c)
+    # every pair of windows (incl. empty and point-like) across two logically different grids, and across
+    # equal grids held in distinct objects: equality, union and intersection
+    for kind, g2 in (('moved', p[:2] + [p[2] + Fr(1, 2)] + p[3:]), ('longer', p + [p[-1] + 1]), ('equal', list(p))):
+        c = Case(f"C13x_{kind}")
+        c.grid_new(0, p)
+        c.grid_new(1, g2)
+        wa = windows(4)
+        wb = windows(len(g2))
+        for i, w in enumerate(wa):
+            c.sup_new(10 + i, 0, w[0], w[1])
+        for j, w in enumerate(wb):
+            c.sup_new(100 + j, 1, w[0], w[1])
+        for i in range(len(wa)):
+            for j in range(len(wb)):
+                c.sup_eq(10 + i, 100 + j)
+                c.sup_eq(100 + j, 10 + i)
+                c.sup_union(500, 10 + i, 100 + j)
+                c.sup_inter(501, 100 + j, 10 + i)
+        cases.append(c)
     return cases
 
 
@@ -872,6 +891,19 @@ def gen_C15(seed, tier):
                 c.spl_eq(2, 3); c.spl_eq(3, 2)
                 c.spl_mul(6, 2, 3); c.show(6); c.spl_is_zero(6)
             cases.append(c)
+    # equality across logically different grids (empty, point-like and coinciding windows)
+    c = Case("C15_diffgrid")
+    c.grid_new(0, pts)
+    c.grid_new(1, pts[:-1] + [pts[-1] + 1])
+    for wi, w in enumerate([(0, 0), (1, 2), (0, 3), (2, 4)]):
+        for gi in (0, 1):
+            c.sup_new(1000 + 10 * wi + gi, gi, w[0], w[1])
+            c.spl_new(200 + 10 * wi + gi, 1, 1000 + 10 * wi + gi, [[Fr(1), Fr(2)] for _ in range(nint(w))])
+    for wi in range(4):
+        for wj in range(4):
+            c.spl_eq(200 + 10 * wi, 200 + 10 * wj + 1); c.spl_eq(200 + 10 * wj + 1, 200 + 10 * wi)
+            c.spl_overlap(200 + 10 * wi, 200 + 10 * wj + 1)
+    cases.append(c)
     return cases
 
 
@@ -1024,6 +1056,31 @@ def gen_C09(seed, tier):
             c.bilin(E('Spl', 50), E('Id'), 60, 60)
         for i in index_probes(n):
             c.sup_at(1050, i); c.grid_at(0, i); c.sup_abs(1050, i); c.sup_rel(1050, i); c.sup_ivl(1050, i)
+        cases.append(c)
+    # degenerate supports (empty, point-like, one interval): every accessor and every binary operation, evaluated at
+    # every grid point and just beside it
+    for o in (0, 2):
+        c = Case(f"C09d_{o}")
+        c.grid_new(0, pts)
+        ws = windows(n)
+        for wi, w in enumerate(ws):
+            c.sup_new(1100 + wi, 0, w[0], w[1])
+            c.spl_new(100 + wi, o, 1100 + wi, rand_coefs(rng, o, nint(w)))
+            for x in pts:
+                c.spl_eval(100 + wi, x)
+            c.spl_eval(100 + wi, pts[0] - 1); c.spl_eval(100 + wi, pts[-1] + 1); c.spl_eval(100 + wi, (pts[1] + pts[2]) / 2)
+            c.spl_front(100 + wi); c.spl_back(100 + wi); c.spl_is_zero(100 + wi)
+            c.sup_front(1100 + wi); c.sup_back(1100 + wi); c.sup_iter(1100 + wi)
+        small = [wi for wi, w in enumerate(ws) if nint(w) <= 1]
+        for wi in small:
+            for wj in small:
+                c.spl_mul(300, 100 + wi, 100 + wj)
+                for x in pts:
+                    c.spl_eval(300, x)
+                c.spl_add(301, 100 + wi, 100 + wj); c.spl_eval(301, pts[1])
+                c.spl_overlap(100 + wi, 100 + wj)
+                c.bilin(E('Pos', 1), E('Der', 1), 100 + wi, 100 + wj)
+                c.apply(302, E('Mul', E('Pos', 1), E('Der', 1)), 100 + wi); c.spl_eval(302, pts[2])
         cases.append(c)
     return cases
 
